@@ -1510,7 +1510,18 @@ def run_histories(ctx, cds):
     Hs.emit()
 
 
+# ------------------------------------------------------------------------------------------------
+# history / object-identity probes (harness/histories.py); the adapters of the four FEC properties live in harness/hist_fec.py
+def ENTRY_POINTS():
+    import hist_fec
+
+    return hist_fec.entry_points("c09")
+
+
 def run(ctx):
+    import histories
+
+    histories.run(ctx, ENTRY_POINTS)  # generic history / object-identity probes (adapters: harness/hist_fec.py)
     ctx.rule = (
         "per class: corpus (messages with non-palindromic CS-5, the captured on-air words of the test-suite), "
         "boundary words, all unit / co-unit words, random 2-bit words, checksum-boundary octet sums, random words of "
@@ -1784,6 +1795,10 @@ def checksum_verify_cases(ctx):
 
 
 def replay(obj):
+    if str((obj.get("failure") or {}).get("kind", "")).startswith("history:"):
+        import histories
+
+        return histories.replay((obj.get("failure") or {}).get("input") or {}, ENTRY_POINTS)
     f = obj.get("failure") or {}
     inp = f.get("input", {})
     print(json.dumps(obj.get("type")), f.get("kind"), "-", f.get("what"))
